@@ -2942,6 +2942,13 @@ func (fr *Frame) call(st *State, x *ssa.Call) bool {
 			setRes(Val{fmt.Sprintf("(substr %s 0 (%s %s))", sv, fn, sv), x.Type()})
 			return true
 		}
+		if k, ok := x.Call.Args[1].(*ssa.Const); ok && full == "strings.TrimLeft" && k.Value != nil && asciiOnly(constant.StringVal(k.Value)) {
+			// constant ASCII cutset: the result is the suffix from offset trimleft_<bytes>(s): every byte before it is in the
+			// cutset, the byte at it (if any) is not
+			fn := c.trimLeftFn(constant.StringVal(k.Value))
+			setRes(Val{fmt.Sprintf("(substr %s (%s %s) (slen %s))", sv, fn, sv, sv), x.Type()})
+			return true
+		}
 		r := c.fresh("trimmed", "Str")
 		if full == "strings.TrimLeft" {
 			fr.assume(st, fmt.Sprintf("(and (<= (slen %s) (slen %s)) (= %s (substr %s (- (slen %s) (slen %s)) (slen %s))))", r, sv, r, sv, sv, r, sv))
@@ -3311,6 +3318,29 @@ func (c *Ctx) trimRightFn(cutset string) string {
 			fmt.Sprintf("(define-fun %s_in ((c Int)) Bool %s)", name, cut),
 			fmt.Sprintf("(assert (forall ((s Str)) (! (and (<= 0 (%s s)) (<= (%s s) (slen s)) (=> (> (%s s) 0) (not (%s_in (sat s (- (%s s) 1)))))) :pattern ((%s s)))))", name, name, name, name, name, name),
 			fmt.Sprintf("(assert (forall ((s Str) (i Int)) (! (=> (and (<= (%s s) i) (< i (slen s))) (%s_in (sat s i))) :pattern ((%s s) (sat s i)))))", name, name, name))
+	}
+	return name
+}
+
+// trimLeftFn: the number of leading bytes strings.TrimLeft(s, cutset) removes, for a constant ASCII cutset.
+func (c *Ctx) trimLeftFn(cutset string) string {
+	name := "trimleft"
+	var in []string
+	for i := 0; i < len(cutset); i++ {
+		name += fmt.Sprintf("_%02x", cutset[i])
+		in = append(in, fmt.Sprintf("(= c %d)", cutset[i]))
+	}
+	if !c.dts[name] {
+		c.dts[name] = true
+		cut := "(or " + strings.Join(in, " ") + ")"
+		if len(in) == 1 {
+			cut = in[0]
+		}
+		c.dtDecls = append(c.dtDecls,
+			fmt.Sprintf("(declare-fun %s (Str) Int)", name),
+			fmt.Sprintf("(define-fun %s_in ((c Int)) Bool %s)", name, cut),
+			fmt.Sprintf("(assert (forall ((s Str)) (! (and (<= 0 (%s s)) (<= (%s s) (slen s)) (=> (< (%s s) (slen s)) (not (%s_in (sat s (%s s)))))) :pattern ((%s s)))))", name, name, name, name, name, name),
+			fmt.Sprintf("(assert (forall ((s Str) (i Int)) (! (=> (and (<= 0 i) (< i (%s s))) (%s_in (sat s i))) :pattern ((%s s) (sat s i)))))", name, name, name))
 	}
 	return name
 }
